@@ -198,7 +198,7 @@ func init() {
 		ID: "C03",
 		Harnesses: []HarnessSpec{
 			{Name: "VerifH_serveHTTP_params", Covers: []string{"query-param", "body-star", "body-field", "nested-bound"}},
-			{Name: "VerifH_params", Covers: []string{"string", "json-name", "bytes", "bytes-rejected", "enum", "enum-rejected", "repeated", "nested", "through-list", "through-map", "unknown-key", "int32", "int32-rejected"}},
+			{Name: "VerifH_params", Covers: []string{"string", "json-name", "bytes", "bytes-rejected", "enum", "enum-rejected", "repeated", "nested", "through-list", "through-map", "unknown-key", "int32", "int32-rejected", "bool", "bool-rejected", "int64", "uint32", "uint32-rejected"}},
 			{Name: "VerifH_http_recv_stream", Covers: []string{"clean-eof"}},
 		},
 		Bounds: map[string]string{
@@ -235,7 +235,7 @@ func init() {
 		ID: "C18",
 		Harnesses: []HarnessSpec{
 			{Name: "VerifH_serveGRPC", Covers: []string{"interceptor", "stats", "ok", "failed"}},
-			{Name: "VerifH_serveHTTP_status", Covers: []string{"interceptor", "stats", "ok", "twirp", "status-body", "header-then-error"}},
+			{Name: "VerifH_serveHTTP_status", Covers: []string{"interceptor", "stats", "ok", "twirp", "status-body", "header-then-error", "http-header-metadata"}},
 			{Name: "VerifH_grpc_recv", Covers: []string{"stats-inpayload"}},
 			{Name: "VerifH_grpc_send", Covers: []string{"stats-outpayload"}},
 		},
